@@ -28,7 +28,9 @@ def log(*a):
 def run_v_unit(prop, unit, tier, canary):
     """Build + verify one Verus unit. Returns analysis dict (+ info)."""
     tpath = os.path.join(VERIF, "verus", "units", unit + ".rs.tmpl")
-    wdir = os.path.join(WORK, prop, unit + ("__canary" if canary else ""))
+    # scratch checkouts (VERIF_REPO) get their own work dir: parallel runs on different trees must not share generated files
+    rtag = "" if os.path.realpath(REPO) == "/repo" else "@" + hashlib.sha1(os.path.realpath(REPO).encode()).hexdigest()[:8]
+    wdir = os.path.join(WORK, prop + rtag, unit + ("__canary" if canary else ""))
     os.makedirs(wdir, exist_ok=True)
     try:
         gen, info = weave.build_unit(tpath, REPO, canary=canary)
